@@ -287,11 +287,11 @@ def gen_case(rng, Lchoices=(3, 4, 5, 6, 8, 12, 20, 40, 80)):
             'force': rng.random() < 0.5}
 
 
-def exhaustive_small_cases():
-    """every reference of length 3 over {A,C,G,T,N} (125) x both conversion bases, covered end to end by one
-    unconverted and one fully converted mate pair: every context at both contig ends"""
+def exhaustive_small_cases(alphabet='ACGTN', n=3):
+    """every reference of length n over the alphabet x R1 orientation x taps_strand x (unconverted | fully
+    converted), covered end to end by one mate pair: every context at both contig ends"""
     out = []
-    for ref in itertools.product('ACGTN', repeat=3):
+    for ref in itertools.product(alphabet, repeat=n):
         ref = ''.join(ref)
         for r1rev in (False, True):
             for ts in ('F', 'R'):
@@ -300,7 +300,7 @@ def exhaustive_small_cases():
                     conv = ('G' if strand else 'C') if ts == 'F' else ('C' if strand else 'G')
                     seq = ''.join((('T' if conv == 'C' else 'A') if (c == conv and converted) else (c if c != 'N' else 'A'))
                                   for c in ref)
-                    rd = lambda rev: {'start': 0, 'cigar': [[0, 3]], 'seq': seq, 'qual': [30, 30, 30], 'rev': rev, 'md': True}
+                    rd = lambda rev: {'start': 0, 'cigar': [[0, n]], 'seq': seq, 'qual': [30] * n, 'rev': rev, 'md': True}
                     out.append({'ref': ref, 'refkind': 'pysam' if converted else 'cachednh', 'klass': 'chic', 'taps_strand': ts,
                                 'unsafe': False, 'invert': False, 'kw': None,
                                 'frags': [[rd(r1rev), rd(not r1rev)]], 'meth': [], 'conv': conv})
@@ -488,7 +488,9 @@ class Prop(fw.PropBase):
                 if fn.endswith('.json'):
                     cases.append(json.load(open(os.path.join(CORPUS, fn)))['case'])
         self.n_corpus = len(cases)
-        ex = exhaustive_small_cases()
+        ex = exhaustive_small_cases('ACGTN', 3)
+        if not quick:
+            ex += exhaustive_small_cases('ACGTN', 4) + exhaustive_small_cases('ACGT', 5)
         cases += ex
         self.n_exhaustive = len(ex)
         n = 2000 if quick else 60000
@@ -544,11 +546,11 @@ class Prop(fw.PropBase):
                     'soft-masked bases, random methylation, conversion noise, sequencing errors, indels/soft clips, '
                     'dove-tailed / single-end / same-orientation mates, missing MD) through the real TAPSCHICMolecule / '
                     'TAPSNlaIIIMolecule.__finalise__ with pysam.FastaFile / CachedFasta references, plus every reference of '
-                    'length 3 over ACGTN x strand x taps_strand x converted; compared: methylation_call_dict (position, '
+                    'length 3 over ACGTN (thorough: also length 4 over ACGTN, 5 over ACGT) x strand x taps_strand x converted; compared: methylation_call_dict (position, '
                     'consensus, context letter, cov) and XM/MC/uC/sZ/sz/sX/sx/sH/sh of every read. non-trivial = at least '
                     'one z/x/h/Z/X/H call; distinct by hash of the model input',
             'histogram': dict(hist), 'letters': dict(letters),
-            'corpus_cases': self.n_corpus, 'exhaustive_len3_cases': self.n_exhaustive,
+            'corpus_cases': self.n_corpus, 'exhaustive_small_reference_cases': self.n_exhaustive,
             'exhaustive': False,
             'samples': [{'case': {k: cases[i][k] for k in ('ref', 'refkind', 'klass', 'taps_strand', 'unsafe', 'invert', 'force', 'kw', 'frags') if k in cases[i]},
                          'impl_calls': res[i].get('calls'), 'impl_tags': res[i].get('tags')}
